@@ -2,6 +2,8 @@ import LenaModel.Lemmas.C04
 import LenaModel.Lemmas.C04Alone
 import LenaModel.Lemmas.C04Local
 import LenaModel.Lemmas.C04Fill
+import LenaModel.Lemmas.C04Purpose
+import LenaModel.Lemmas.C04Hist
 /-! # C04 — context non-interference between `Split` branches and across accumulators
 
 The property (properties.jsonl, C04) has two sentences.
@@ -12,17 +14,33 @@ The property (properties.jsonl, C04) has two sentences.
    (a) `split_tokens_disjoint`, `fill_tokens_disjoint`, `zip_tokens_disjoint`: the objects handed to different
    branches (and to the same branch at different times) are pairwise different, and every copy consists of
    objects that did not exist before.
-   (b) `branch_alone_equiv` (`Split.run`), `split_fill_alone_equiv` (`Split._fill`), `zip_fill_alone_equiv`
-   (`Zip._fill`): under locality of mutation (`Local`), the events of every branch inside the `Split`/`Zip` are
-   exactly the events of that branch run alone on private deep copies (or, for the last active branch, on the
-   original values).  `harness_branches_local` proves `Local` for every branch of the executable model, so
+   (b) `branch_alone_equiv` (`Split.run`): under locality of mutation (`Local`), the complete event trace of every
+   branch inside the `Split` — what it is handed, every invocation, every yielded value with the contents of its
+   objects — is the trace of that branch run alone on private deep copies (or, for the last active branch, on the
+   original values).  `split_fill_alone_equiv` (`Split._fill` + `_compute`/`_request`) and `zip_fill_alone_equiv`
+   (`Zip._fill` + `compute`/`request` of the sequences): the same for the filling events *and* for what the branch
+   then yields.  `harness_branches_local` proves `Local` for every branch of the executable model, so
    `harness_branch_alone_equiv` holds without any locality hypothesis.
+   Exceptions: the model of `Split` goes on after an invocation that returns an exception (`Resp.err`), the real
+   run ends; `harness_branch_alone_equiv` is therefore restricted to accumulators that cannot raise (`canErr`),
+   and `harness_no_exception` shows that then no invocation returns an exception.  For the generic theorems the
+   absence of exceptions other than `LenaStopFill` is an assumption (ASSUMPTIONS of the harness module).
 
 2. *Every context yielded by a framework accumulator's compute() or request() shares no mutable object with
-   the context of any value that was filled nor with a context it yielded earlier.*
-   `acc_yield_fresh` (generic in the accumulator) with `accOps_freshYield` (every modelled accumulator except
-   `StoreFilled` and the user elements that yield what was filled, whose documented result *is* the filled
-   values — `store_yields_filled`); `split_compute_fresh` for the common-type `Split._compute`/`_request`. -/
+   the context of any value that was filled nor with a context it yielded earlier, so downstream in-place updates
+   can corrupt neither the source data nor later results.*
+   Identity: `acc_yield_fresh` (generic in the accumulator, all histories) with the instances `accOps_freshYield`
+   (every modelled framework accumulator, including those that yield several values per `compute()`),
+   `fcseq_freshYield` (such an accumulator behind other elements), `zip_compute_fresh` (`Zip` of accumulators);
+   `split_hist_fresh` (`Split` through its common-type methods, all histories; `split_compute_fresh` one call of
+   `collect`).  Excluded by specification: `StoreFilled`, `GroupBy` and the user elements that yield what was
+   filled (`store_yields_filled`, `store_yields_what_was_filled`, `storeGroup_yields_what_was_filled`,
+   `groupBy_yields_internal`).
+   Purpose clause: `downstream_updates_harmless` — in every history, in-place updates confined to the objects of
+   values yielded earlier change no response and no content of any later result (`downstream_updates_harmless_gen`
+   for any accumulator that is local, allocates what it yields and keeps no reference to it: `Tidy`).
+   Not modelled (real-code oracle only): the `FillRequest` adapter, whose `request()` yields values computed during
+   an earlier `fill` (output buffer). -/
 
 namespace Lena.C04
 
@@ -379,6 +397,13 @@ theorem accOps_freshYield (ns : Nat) (k : AccKind) (hk : k.fresh = true) :
     FreshYield (accOps ns k) ns (fun s : HSt => s.ctr) :=
   accOps_freshYield' ns k hk
 
+/-- the same for a `FillComputeSeq` / `FillRequestSeq`: any modelled elements (`Variable`, `UpdateContext`,
+`MakeFilename`, `Count`, `Slice`, user mutators) in front of such an accumulator — so `acc_yield_fresh` covers the
+histories of these sequences too -/
+theorem fcseq_freshYield (ns : Nat) (sp : BSpec) (hk : sp.term.fresh = true) :
+    FreshYield (hOps ns sp) ns (fun s : HSt => s.ctr) :=
+  hOps_freshYield' ns sp hk
+
 /-- **Every context yielded by an accumulator's `compute()`/`request()` is new.**  For every accumulator whose
 methods allocate what they yield (`FreshYield`; `accOps_freshYield`: all modelled framework accumulators), for
 every history of `fill`/`compute`/`request` invocations interleaved with arbitrary changes `ext f` of the heap
@@ -453,6 +478,68 @@ example :
   subst hg
   exact Nat.le_refl _
 
+/-! ## sentence 2, the purpose clause: downstream in-place updates corrupt neither the source data nor later
+results -/
+
+/-- the framework accumulators keep no reference to a context they have yielded (and refer only to allocated
+objects) -/
+theorem accOps_tidy' (ns : Nat) (k : AccKind) (hk : k.fresh = true) :
+    Tidy (accOps ns k) ns (fun s : HSt => s.ctr) := accOps_tidy ns k hk
+
+/-- **Downstream in-place updates of yielded values corrupt neither the source data nor later results.**  For
+every modelled framework accumulator that allocates what it yields (`k.fresh`), from every state that refers
+only to allocated objects, and for every history `h` of `fill`/`compute`/`request` invocations, `reset()`s
+(`upd`) and *downstream updates* `ext f` — arbitrary changes of the heap confined to the objects of the values
+yielded earlier in this history (`Downstream`: every `f` is the identity outside the yielded objects; the values
+filled exist and are not themselves earlier results): what downstream observes — the response of every
+invocation (values yielded, flag, exception) and the contents of the objects of the yielded values at the moment
+they are yielded — is **the same as in the history without the updates** (`stripExt`).
+
+That the updates cannot reach the *source data* is their confinement to yielded objects together with
+`acc_yield_fresh`: no object of a yielded value is an object of any value filled before. -/
+theorem downstream_updates_harmless (ns : Nat) (k : AccKind) (hk : k.fresh = true)
+    (h : List (HOp HSt Skel Value)) (st : Store Value) (s : HSt)
+    (hs : RefsBelow (accOps ns k) ns (fun s : HSt => s.ctr) s)
+    (hd : Downstream (accOps ns k) ns (fun s : HSt => s.ctr) st s [] h) :
+    runHistS (accOps ns k) st s h = runHistS (accOps ns k) st s (stripExt h) :=
+  downstream_sim (accOps ns k) ns (fun s : HSt => s.ctr) (hOps_localF ns { kind := .fillCompute, steps := [], term := k, srcN := 0 }) (accOps_freshYield' ns k hk)
+    (accOps_tidy ns k hk) h st st s [] hd (fun _ _ => rfl) hs (fun _ ht => absurd ht List.not_mem_nil)
+    (fun _ ht => absurd ht List.not_mem_nil)
+
+/-- the general form: any accumulator that is local (fine footprint), allocates what it yields and keeps no
+reference to it -/
+theorem downstream_updates_harmless_gen (ops : Ops σ S C) (ns : Nat) (ctr : σ → Nat)
+    (hL : LocalF ops ns ctr) (hF : FreshYield ops ns ctr) (hT : Tidy ops ns ctr)
+    (h : List (HOp σ S C)) (st : Store C) (s : σ)
+    (hs : RefsBelow ops ns ctr s) (hd : Downstream ops ns ctr st s [] h) :
+    runHistS ops st s h = runHistS ops st s (stripExt h) :=
+  downstream_sim ops ns ctr hL hF hT h st st s [] hd (fun _ _ => rfl) hs (fun _ ht => absurd ht List.not_mem_nil)
+    (fun _ ht => absurd ht List.not_mem_nil)
+
+/-- non-vacuity: `Sum`, filled, computed, **the yielded context overwritten in place**, filled again, computed:
+the hypotheses of `downstream_updates_harmless` hold; the update is a real change of the heap (the overwritten
+object is the context of the first result), and the second result carries the context `{"k": 1}` of the data, not the
+overwritten one -/
+example :
+    let ops := accOps (ownNs 0) .sum
+    let x : HItem := mkItem (.int 1) (some (upNs, 0))
+    let y : HItem := mkItem (.int 3) (some (upNs, 1))
+    let f : Store Value → Store Value := fun st => st.set (ownNs 0, 0) (.dict [("output", .str "overwritten")])
+    let h : List (HOp HSt Skel Value) := [.req (.fill x), .req .compute, .ext f, .req (.fill y), .req .compute]
+    let st0 : Store Value := fun _ => .dict [("k", .int 1)]
+    RefsBelow ops (ownNs 0) (fun s : HSt => s.ctr) {} ∧
+    Downstream ops (ownNs 0) (fun s : HSt => s.ctr) st0 {} [] h ∧
+    (runHistS ops st0 {} h).map (fun e => (cellsOf e.2.1.outs, e.2.2))
+      = [([], []), ([(2, 0)], [.dict [("k", .int 1)]]), ([], []), ([(2, 1)], [.dict [("k", .int 1)]])] := by
+  refine ⟨fun t ht => (List.not_mem_nil (show t ∈ [] from ht)).elim, ?_, by rfl⟩
+  simp only [Downstream]
+  refine ⟨rfl, by decide, rfl, by decide, ?_, rfl, by decide, rfl, by decide, trivial⟩
+  intro st' t ht
+  simp only [Store.set]
+  split
+  · next e => subst e; exact absurd (by decide) ht
+  · rfl
+
 theorem outputs_append (l₁ l₂ : List (Ev S C)) : outputs (l₁ ++ l₂) = outputs l₁ ++ outputs l₂ := by
   induction l₁ with
   | nil => rfl
@@ -506,6 +593,56 @@ theorem split_compute_fresh (req : Req S) (hreq : req.isAcc = true) (mkEv : Nat 
         exact ⟨b, List.mem_cons_self .., g1, g2⟩
       · obtain ⟨b', hb', h⟩ := i2 t ht
         exact ⟨b', List.mem_cons_of_mem _ hb', h⟩
+
+/-- a `Split` of modelled accumulators that allocate what they yield (any elements before them) -/
+def splitInit (specs : List BSpec) : ZSt := { brs := mkBranches 0 specs }
+
+theorem splitInit_inv (specs : List BSpec) (hk : ∀ sp ∈ specs, sp.term.fresh = true) : SplitInv (splitInit specs) := by
+  obtain ⟨m1, m2⟩ := mkBranches_spec specs 0
+  refine ⟨m2, ?_⟩
+  intro b hb
+  obtain ⟨_, _, sp, hsp, hops⟩ := m1 b hb
+  rw [hops]
+  exact hOps_freshYield' (ownNs b.id) sp (hk sp hsp)
+
+/-- **`Split([accumulator, …])` used through `fill` / `compute` / `request`, all histories**: for a `Split` whose
+branches are `FillComputeSeq`s of modelled elements ending in accumulators that allocate what they yield, and for
+every history of `fill`/`compute`/`request` invocations interleaved with arbitrary changes of the heap by the rest
+of the program, in which the values filled exist when they are filled (`FilledOld`: none of their objects is one
+that a branch is still going to allocate — a filled value may be an earlier result): the objects of the values
+yielded by an invocation `e` are pairwise different, are not objects of any value filled before, and are not
+objects of any value yielded before. -/
+theorem split_hist_fresh (specs : List BSpec) (hk : ∀ sp ∈ specs, sp.term.fresh = true)
+    (h : List (HOp ZSt Skel Value)) (st : Store Value)
+    (hacc : ∀ r, HOp.req r ∈ h → r.isAcc = true) (hupd : ∀ g, HOp.upd g ∉ h)
+    (hin : FilledOld splitAccOps SplitOld st (splitInit specs) h)
+    (pre : List (HEv Skel)) (e : HEv Skel) (post : List (HEv Skel))
+    (heq : runHist splitAccOps (fun _ => 0) st (splitInit specs) h = pre ++ e :: post) :
+    (cellsOf e.resp.outs).Nodup ∧
+    ∀ t ∈ cellsOf e.resp.outs, ∀ e' ∈ pre, t ∉ e'.req.cells ∧ t ∉ cellsOf e'.resp.outs := by
+  obtain ⟨h1, _, h3⟩ := hist_fresh_G splitAccOps SplitInv SplitOld splitAccOps_freshYieldG h st (splitInit specs)
+    (splitInit_inv specs hk) hacc (fun g hg => absurd hg (hupd g)) hin pre e post heq
+  exact ⟨h1, h3⟩
+
+/-- non-vacuity: `Split([Sum(), Count("n")])`, filled with two upstream values, computed, the first result mutated
+in place, filled with its own first result, computed again: the hypotheses of `split_hist_fresh` hold, and the
+four contexts yielded are four different new objects -/
+example :
+    let specs : List BSpec := [{ kind := .fillCompute, steps := [], term := .sum, srcN := 0 },
+                               { kind := .fillCompute, steps := [], term := .count "n", srcN := 0 }]
+    let x : HItem := mkItem (.int 1) (some (upNs, 0))
+    let y : HItem := mkItem (.int 3) (some (upNs, 1))
+    let z : HItem := mkItem (.int 4) (some (ownNs 0, 0))
+    let h : List (HOp ZSt Skel Value) :=
+      [.req (.fill x), .req (.fill y), .req .compute,
+       .ext (fun st => st.set (ownNs 0, 0) (.dict [("output", .str "f")])), .req (.fill z), .req .compute]
+    (∀ sp ∈ specs, sp.term.fresh = true) ∧
+    FilledOld splitAccOps SplitOld (fun _ => .dict [("k", .int 1)]) (splitInit specs) h ∧
+    (runHist splitAccOps (fun _ => 0) (fun _ => .dict [("k", .int 1)]) (splitInit specs) h).map
+        (fun e => cellsOf e.resp.outs) = [[], [], [(2, 0), (4, 0)], [], [(2, 1), (4, 1)]] := by
+  refine ⟨by decide, ?_, by decide⟩
+  simp only [FilledOld, SplitOld]
+  decide
 
 /-- `StoreFilled` is outside the second sentence: its documented result *is* the filled values, and the model
 shows it — the yielded value is the very object that was filled -/
